@@ -157,7 +157,8 @@ func checkC17(c *hx.Ctx) {
 		doc := genDoc(r)
 		if r.Chance(1, 4) {
 			// member names that need no JSON-pointer escaping but are unusual
-			doc[hx.Pick(r, []string{"quote\"name", "back\\slash", "tab\tname", "ünï€", "sp ace", "#frag", "%41", "a.b", "", "0", "-"})] = "v"
+			doc[hx.Pick(r, []string{"quote\"name", "back\\slash", "tab\tname", "ünï€", "sp ace", "#frag", "%41", "a.b", "", "0", "-",
+				"unit\x1fsep", "del\x7f", "bell\a", "nul\x00", "esc\x1b[0m", "nbsp\u00a0", "ls\u2028", "emoji\U0001F600", "<html>&amp;", "cr\rlf\n", "vt\v", "ff\f", "bs\b"})] = "v"
 		}
 		c.Eval()
 		b, _ := json.Marshal(doc)
